@@ -97,3 +97,10 @@ Proof. reflexivity. Qed.
 Lemma src_CompareTimestamp_ok : src_CompareTimestamp =
   "{ if tsoOne.GetPhysical() > tsoTwo.GetPhysical() || (tsoOne.GetPhysical() == tsoTwo.GetPhysical() && tsoOne.GetLogical() > tsoTwo.GetLogical()) { return 1 } if tsoOne.GetPhysical() == tsoTwo.GetPhysical() && tsoOne.GetLogical() == tsoTwo.GetLogical() { return 0 } return -1 }".
 Proof. reflexivity. Qed.
+
+(* the election loop of a Local TSO Allocator: a leader record that exists is watched until it goes away - nobody deletes or
+   campaigns over the live record of another member, whatever the next-leader key says (it only decides who may campaign
+   once there is no leader); a dc-location the PD leader knows without a suffix postpones the campaign *)
+Lemma skel_am_allocatorLeaderLoop_ok : skel_am_allocatorLeaderLoop =
+  [ForE [SwitchE [[Ret]; []]; Call "CheckAllocatorLeader"; IfE "checkAgain" [Cont] []; IfE "allocatorLeader != nil" [Call "WatchAllocatorLeader"] []; Call "getNextLeaderID"; IfE "err != nil" [Cont] []; IfE "nextLeader != 0" [IfE "nextLeader != am.member.ID()" [Cont] []] []; Call "getDCLocationInfoFromLeader"; IfE "err != nil" [Call "longSleep"; IfE "!longSleep(ctx, time.Second)" [Ret] []; Cont] []; IfE "!ok || dcLocationInfo.Suffix <= 0 || dcLocationInfo.MaxTs == nil" [Call "longSleep"; IfE "!longSleep(ctx, checkStep)" [Ret] []; Cont] []; Call "campaignAllocatorLeader"]].
+Proof. reflexivity. Qed.
